@@ -3,6 +3,8 @@ import ComposeVerif.Model.Extends
 import ComposeVerif.Model.ExtendsMerge
 import ComposeVerif.Model.ExtendsFS
 import ComposeVerif.Model.ExtendsClone
+import ComposeVerif.Model.ExtendsLoad
+import ComposeVerif.Ops.Pipeline
 import ComposeVerif.Spec.Extends
 import ComposeVerif.Gen.Tables
 /-! line-protocol ops for C05: `c05.apply` (ApplyExtends over a file-system table), `c05.extend` (plain ExtendService) -/
@@ -43,9 +45,31 @@ def perms : List String → List (List String)
   | [] => [[]]
   | x :: xs => (perms xs).flatMap fun p => (List.range (p.length + 1)).map fun i => p.take i ++ [x] ++ p.drop i
 
-/-- `"merge":"plain"` selects the rule-free merge of `Model/Extends.lean`; default = the C04 merge model -/
+/-- one file of the virtual file system: `{"reldir":…, "doc":T(map)}` or `{"err":class}` -/
+def vfileOfJson (j : Json) : VFile :=
+  match j.getObjVal? "err" with
+  | .ok (.str c) => .bad c
+  | _ =>
+    match Val.ofJson (getObj j "doc") with
+    | .ok (.map doc) => .doc (getStr j "reldir") doc
+    | _ => .bad "loadErr"
+
+def vfsOfJson (j : Json) : VFS :=
+  match j with
+  | .arr a => a.toList.filterMap fun e => match e with
+    | .arr #[.str k, r] => some (k, vfileOfJson r)
+    | _ => none
+  | _ => []
+
+/-- `"merge":"plain"` selects the rule-free merge of `Model/Extends.lean`; default = the C04 merge model.
+With `"vfs"` the file-system parameter is *computed by the model* from raw documents (`Model/ExtendsLoad.lean`: the nested
+load of `getExtendsBaseFromFile` = the composed per-document pipeline under the cloned options + `Paths.resolve` at the
+file's directory); the configuration fields are those of `pipeline.load`. -/
 def mkEnv (args : Json) : Env :=
-  { mainFile := getStr args "main", fs := fsOfJson (getObj args "fs"),
+  { mainFile := getStr args "main",
+    fs := match getObj args "vfs" with
+      | .arr _ => loadedFS (CV.Ops.Pipeline.cfgOf args) (vfsOfJson (getObj args "vfs"))
+      | _ => fsOfJson (getObj args "fs"),
     extend := if getStr args "merge" == "plain" then plainExtend CV.Gen.mergeSpecials else mergeExtend }
 
 /-- all outcomes of `ApplyExtends` over the visit orders of the services map (Go's order is random):
@@ -129,6 +153,19 @@ def base : Handler := fun args =>
     outJson (fun d => Val.toJson (.map d)) (baseFromFile fs "f" (getStr args "ref"))
   | _ => Json.mkObj [("bad", "doc")]
 
+/-- `getExtendsBaseFromFile` on a **raw** document stored in directory `reldir`: the nested load inside the model
+(`loadFile`: `Pipeline.processDoc` under `nestedOpts` on the empty model, then `Paths.resolve` at `reldir`) and what
+`baseFromFile` makes of it for the reference `ref`; `stage` = the outcome class of the nested load alone -/
+def loadOp : Handler := fun args =>
+  match Val.ofJson (getObj args "doc") with
+  | .ok (.map doc) =>
+    let c := CV.Ops.Pipeline.cfgOf args
+    let fs : FS := [("f", loadFile c (getStr args "reldir") doc)]
+    match outJson (fun d => Val.toJson (.map d)) (baseFromFile fs "f" (getStr args "ref")) with
+    | .obj kvs => Json.obj (kvs.insert "stage" (.str (nestedLoad c doc).stage))
+    | j => j
+  | _ => Json.mkObj [("bad", "doc")]
+
 /-- `deepClone` on the heap model: lay the value out at addresses `0 … n-1`, clone with the allocator at `n`;
 `equal` = the clone has the argument's value, `shared` = containers of the clone that are containers of the argument,
 `fresh` = containers allocated -/
@@ -143,6 +180,7 @@ def cloneOp : Handler := fun args =>
   | _ => Json.mkObj [("bad", "v")]
 
 def handlers : List (String × Handler) :=
-  [("c05.apply", apply), ("c05.extend", extend), ("c05.tracker", tracker), ("c05.base", base), ("c05.clone", cloneOp)]
+  [("c05.apply", apply), ("c05.extend", extend), ("c05.tracker", tracker), ("c05.base", base), ("c05.clone", cloneOp),
+   ("c05.load", loadOp)]
 
 end CV.Ops.C05
